@@ -157,15 +157,17 @@ func (ctx *_OpContextType) encodeRaw(as abi.As, arg *abi.AsArgument) (x uint32, 
 		rd := ctx.regI(arg.Rd)
 		rj := ctx.regI(arg.Rs1)
 		rk := ctx.regI(arg.Rs2)
-		sa2 := arg.Imm & 0xF
-		x |= (rk << 14) | (uint32(sa2) << 10) | (rj << 5) | rd
+		assert(arg.Imm >= 0 && arg.Imm < (1<<2))
+		sa2 := arg.Imm & 0b_11
+		x |= (uint32(sa2) << 15) | (rk << 10) | (rj << 5) | rd
 		return
 	case OpFormatType_3R_sa3:
 		rd := ctx.regI(arg.Rd)
 		rj := ctx.regI(arg.Rs1)
 		rk := ctx.regI(arg.Rs2)
-		sa2 := arg.Imm & 0x1F
-		x |= (rk << 14) | (uint32(sa2) << 10) | (rj << 5) | rd
+		assert(arg.Imm >= 0 && arg.Imm < (1<<3))
+		sa3 := arg.Imm & 0b_111
+		x |= (uint32(sa3) << 15) | (rk << 10) | (rj << 5) | rd
 		return
 	case OpFormatType_code:
 		code := arg.Imm & 0x7FFF
